@@ -5,17 +5,6 @@ From TV Require Import Base.Prelude Generated.Constants DocSet.Spec DocSet.Impl 
   DocSet.Exclude DocSet.ReqOpt DocSet.Sum DocSet.Intersect DocSet.Union DocSet.Disjunction.
 Local Open Scope N_scope.
 
-Definition nl_eqb := list_eqb N.eqb.
-Definition obs_eqb (a b : obs) : bool :=
-  match a, b with
-  | ODoc x, ODoc y => N.eqb x y
-  | OBuf b1 d1, OBuf b2 d2 => nl_eqb b1 b2 && N.eqb d1 d2
-  | OMask m1 r1 d1, OMask m2 r2 d2 => nl_eqb m1 m2 && N.eqb r1 r2 && N.eqb d1 d2
-  | OCount x, OCount y => N.eqb x y
-  | _, _ => false
-  end.
-Definition obsl_eqb := list_eqb obs_eqb.
-
 Definition leaves (ls : list (list N)) : list vstate := map vec_of ls.
 
 (* one-level models over leaves *)
@@ -92,7 +81,7 @@ Fixpoint union_in_union (q : qshape) : bool :=
   end.
 
 (* F132: a buffered fill followed by a positioning call on a tree that contains a scoring union *)
-Definition is_positioning (c : call) : bool := match c with CAdvance | CSeek _ => true | _ => false end.
+Definition is_positioning (c : call) : bool := match c with CAdvance | CSeek _ | CDanger _ => true | _ => false end.
 Fixpoint fill_then_position (prog : list call) : bool :=
   match prog with
   | [] => false
